@@ -236,6 +236,7 @@ P = {
     "C17.f": "the repository loaders register the importing model before they load anything (dominance on the path with an importer)",
     "C17.h": "with a global repository the cache is consulted for every load, direct or nested",
     "C17.e": "ImportURI recognises an object found in the own / a loaded / a builtin model by None-test, so the documented lookup order is not skipped for falsy objects",
+    "C17.o": "internal_model_from_file by evaluation with recording stand-ins: the text (read with the caller's encoding or given) reaches a parser clone unchanged with absolute file name, debug, encoding, is_main_model; every model gets the caller's parameters before the caller's callback; processors run afterwards with the snapshot; with a global repository a cached file (also a falsy model object) is returned without parsing and a newly parsed model is registered",
     "C17.m": "the repositories as a state machine, by evaluation (classes instantiated by interpreting their __init__, stand-in meta-model): a file is loaded once and later loads return the same object; the model is registered under its file whether or not the pre-reference-resolution callback ran; it is visible in local_models only when asked for; a loaded model's own repository shares all_models; string-loaded models get one invented name each",
     "C17.n": "the ImportURI provider by evaluation: lookup asks the own model, then the imported models in import order, then the builtin models, and returns the first answer; load_models gives a model without repository one of its own (sharing the meta-model's all_models when there is a global repository) and loads the imports with the encoding given; every import is loaded once with the encoding of the load, the importing model's parameters and add_to_local_models off exactly for named imports under importAs",
   },
@@ -367,6 +368,7 @@ P = {
     "C28.b": "each raise site passes line, col and filename of the owner",
     "C28.g": "by evaluation of TextXModelParser._parse with the exception classes of textx/exceptions.py interpreted: a NoMatch becomes a TextXSyntaxError carrying the NoMatch's message, line, col, context, expected rules and the file name of the parser that reported it (the attributes are read after eval_attrs()); a successful parse returns the tree",
     "C28.h": "by evaluation of the driver parse_tree_to_objgraph (recording stand-ins for the tree walkers, resolver class, loaders and cleanup functions; _start/_end_model_construction interpreted) on 9 load scenarios: the 'Unresolvable cross references' error names every unresolved reference with its class and is located (line, col, file) at one of them, converted by the parser of the model that contains it",
+    "C28.j": "model_from_str by evaluation with recording stand-ins, on meta-models with and without scope providers / global repository: a text given with a file name is loaded as that file (file name, unchanged text, encoding, debug, callback, checked parameters reach internal_model_from_file); a text without file name is parsed unchanged by a parser clone, gets the parameters, then the model processors; non-strings are refused",
     "C28.i": "by evaluation of TextXError.__str__ (and its subclasses, classes of exceptions.py interpreted): an error prints as file:line:col: message [=> 'context'] as soon as any of line, col, file name is known, as the bare message otherwise",
     "C28.c": "the location fields of one raise are assigned in the same loop iteration; by evaluation of the unresolved-reference branch: line, col and filename of the error belong to one and the same reference",
     "C28.d": "the resolver fills a provider error's location only where it has none",
